@@ -467,6 +467,44 @@ def task_int_scalars():
 task_int_scalars.contract_fn = "curves.BaseCurve.__truediv__"
 
 
+def task_zero_control_weight():
+    """A divisor / denominator WITHOUT a zero on the interval whose Bezier coefficients contain a zero (B = (1 - u)^2 + u^2 >= 1/2 has control points 1, 0, 1): the
+    quotient exists, but its (control point, weight) representation at that degree does not (P_i = N_i / W_i). Known finding D43."""
+    from ..report import FAILED, PROVED, ob
+    fn = "curves.BaseCurve.__truediv__"
+    out = []
+    U = [F(0)] * 3 + [F(1)] * 3
+    PA, PB = [F(1), F(2), F(3)], [F(1), F(0), F(1)]
+    us = [F(0), F(1, 3), F(1, 2), F(1)]
+
+    def val(P, W, u):
+        N = spec.basis(U, 2, 2, u)
+        if W is None:
+            return sum(n_ * q for n_, q in zip(N, P))
+        return sum(n_ * w * q for n_, w, q in zip(N, W, P)) / sum(n_ * w for n_, w in zip(N, W))
+    mk = curves.Curve
+    cases = {"A/B": (lambda: mk(list(U), list(PA)) / mk(list(U), list(PB)), lambda u: val(PA, None, u) / val(PB, None, u)),
+             "1/B": (lambda: 1 / mk(list(U), list(PB)), lambda u: 1 / val(PB, None, u)),
+             "R*R": (lambda: mk(list(U), list(PA), list(PB)) * mk(list(U), list(PA), list(PB)), lambda u: val(PA, PB, u) ** 2),
+             "R+R": (lambda: mk(list(U), list(PA), list(PB)) + mk(list(U), list(PA), list(PB)), lambda u: 2 * val(PA, PB, u))}
+    for name, (f, want) in cases.items():
+        bad = None
+        try:
+            R = f()
+            for u in us:
+                if R(u) != want(u):
+                    bad = "(%s)(%s) = %s, expected %s" % (name, u, R(u), want(u))
+                    break
+        except Exception as e:
+            bad = "%s: %s" % (type(e).__name__, str(e)[:100])
+        out.append(ob("%s:zero-control-weight-without-a-zero[%s]" % (fn, name), fn, FAILED if bad else PROVED, "B", "concrete", 0.0,
+                      bad or "pointwise", dict(kind="c08.zeroweight", case=name) if bad else None))
+    return out + [{"_stats": dict(cases=len(out))}]
+
+
+task_zero_control_weight.contract_fn = "curves.BaseCurve.__truediv__"
+
+
 def tasks(tier, seed):
     from ..pyvc.driver import verify
     from ..contracts import curvesv
@@ -492,11 +530,15 @@ def tasks(tier, seed):
     ts.append((task_matrix_points, ()))
     ts.append((task_mixed_points, ()))
     ts.append((task_int_scalars, ()))
+    ts.append((task_zero_control_weight, ()))
     return ts
 
 
 def replay(o):
     w = o["witness"]
+    if w.get("kind") == "c08.zeroweight":
+        r = [x for x in task_zero_control_weight() if "id" in x and x["id"].endswith("[%s]" % w["case"])][0]
+        return r["status"] == "failed", "the pointwise quotient / product / sum", r["detail"]
     if w.get("kind") == "c08.intscalar":
         r = [x for x in task_int_scalars() if "id" in x and x["id"].endswith("[%s,%s,%s]" % ("rat" if w["rational"] else "pol", w["op"], w["scalar"]))][0]
         return r["status"] == "failed", "exact pointwise result with an int / numpy-int / Fraction scalar", r["detail"]
